@@ -43,7 +43,10 @@ def histories(sc, limit):
 def _one(args):
     sc, hist, ninja, vcmd, nx = args
     try:
-        a = rb.nx_replay(sc, hist, nx)
+        try:
+            a = rb.nx_replay(sc, hist, nx)
+        except RuntimeError:
+            a = rb.nx_replay(sc, hist, nx)     # (a loaded machine: one more try before calling it a harness problem)
         b = rb.replay(sc, hist, ninja, vcmd)
         d = rb.compare(a, b)
         if d:
